@@ -170,11 +170,12 @@ def halveN : Nat → Nat → Nat → Nat
 /-- mpn_modexact_1_odd (mpn/x86_64/modexact_1c_odd.as; an assembly kernel, modelled by its contract,
     gmp-impl.h / mpn/generic/modexact_1c_odd.c:29): for odd d the r with 0 ≤ r < d and
     r·B^n + a ≡ 0 (mod d).  One limb per step: c' ≡ (c - s)·B⁻¹ (mod d). -/
-def modexactGo (d : Nat) : Nat → List Nat → Nat
+def modexactGo (k d : Nat) : Nat → List Nat → Nat
   | c, [] => c
-  | c, s :: ss => modexactGo d (halveN 64 d ((c + d - s % d) % d)) ss
+  | c, s :: ss => modexactGo k d (halveN k d ((c + d - s % d) % d)) ss
 
-def modexact_1_odd (up : List Nat) (d : Nat) : Nat := modexactGo d 0 up
+/-- (k = 64 = GMP_LIMB_BITS is a parameter of the loop only so that proofs never unfold 64 halvings) -/
+def modexact_1_odd (up : List Nat) (d : Nat) : Nat := modexactGo 64 d 0 up
 
 /-- gcd_1.c:119-160 (GCD_1_METHOD 2): loop on u = (U-1)/2, v = (V-1)/2 for odd U, V; returns final v. -/
 def gcd1Loop : Nat → Nat → Nat → Nat
